@@ -8,6 +8,7 @@ import (
 	"log"
 	"math/rand"
 	"os"
+	"strings"
 	"sync"
 	"time"
 
@@ -69,6 +70,11 @@ func Main(property string) {
 			if *tier == "thorough" && i%3 == 0 {
 				o = GenOpts{MaxScript: 30, MinMsgs: 10, MaxMsgs: 40, Ics: property == "C18a", Steer: i%4 == 3}
 			}
+			if i%10 == 4 {
+				// a share of the runs: several partitions batched into one request, every partition with its own verdict
+				scs = append(scs, MixedVerdicts(r, GenName(property, *seed, i), property == "C18a"))
+				continue
+			}
 			if i%10 == 9 {
 				// a share of the runs: leader unavailable exactly at a retry-level flush, then a second retry episode
 				codes := []int16{6, 7, 19, 3, 5}
@@ -100,7 +106,7 @@ func Main(property string) {
 		pan := takePanics()
 		fs := monitor(res)
 		if len(pan) > 0 {
-			fs = append([]Finding{{panicSignature(res, sc), "a producer goroutine panicked: " + pan[0]}}, fs...) // the cause first
+			fs = append([]Finding{{panicSignature(res, sc, pan[0]), "a producer goroutine panicked: " + pan[0]}}, fs...) // the cause first
 		}
 		if len(fs) > 0 && !allConfirmed(fs, confirmed) {
 			// anything observed once is re-run: only a failure seen twice counts (a signature confirmed that way
@@ -109,7 +115,7 @@ func Main(property string) {
 			pan2 := takePanics()
 			fs2 := monitor(res2)
 			if len(pan2) > 0 {
-				fs2 = append([]Finding{{panicSignature(res2, sc), "a producer goroutine panicked: " + pan2[0]}}, fs2...)
+				fs2 = append([]Finding{{panicSignature(res2, sc, pan2[0]), "a producer goroutine panicked: " + pan2[0]}}, fs2...)
 			}
 			var both []Finding
 			for _, f := range fs {
@@ -212,7 +218,7 @@ func kindOf(sc *Scenario) string {
 // nontrivial: at least one request faulted, or at least two messages share a partition (DESIGN section 2).
 func nontrivial(sc *Scenario, res *Result) bool {
 	for i, r := range res.Requests {
-		if i < len(sc.Script) && r.Fault.Kind != Ok {
+		if i < len(sc.Script) && (r.Fault.Kind != Ok || len(r.Fault.Mix) > 0) {
 			return true
 		}
 	}
@@ -239,11 +245,25 @@ func allConfirmed(fs []Finding, confirmed map[string]bool) bool {
 // panicSignature names the one panic with a known cause: newHighWatermark reached with brokerProducer == nil (the
 // previous retry level ended on a failed leader lookup and a message with a higher retry count arrives: the fin
 // chaser is sent through a nil broker producer).  Everything else keeps the generic signature.
-func panicSignature(res *Result, sc *Scenario) string {
+func panicSignature(res *Result, sc *Scenario, text string) string {
+	// a panic raised by (or while containing the panic of) a configured interceptor left safelyApplyInterceptor
+	if len(sc.Ics) > 0 && (strings.Contains(text, "scripted interceptor panic") || strings.Contains(text, "unhashable") ||
+		strings.Contains(text, "nil pointer") && !anyNewHWMWithoutBP(res)) {
+		return "c18a:panic-escaped"
+	}
 	for _, e := range res.Events {
 		if e.VerifProdEvent != nil && e.Kind == "pp.newHWM" && !e.HasBP {
 			return "c01:nil-broker-producer-at-new-level"
 		}
 	}
 	return "c01:panic:" + sc.shape()
+}
+
+func anyNewHWMWithoutBP(res *Result) bool {
+	for _, e := range res.Events {
+		if e.VerifProdEvent != nil && e.Kind == "pp.newHWM" && !e.HasBP {
+			return true
+		}
+	}
+	return false
 }
